@@ -34,6 +34,10 @@ SCENARIOS = {
     "insertion-order": ([("add", 1), ("add", 9)], [("add", 9), ("add", 1)]),
     # repr order is not numeric order: a rule must still be one rule
     "negative-and-long": ([("add", x) for x in (100, -2, 10, 2, -1)], [("add", x) for x in (-1, 2, 10, -2, 100)]),
+    # members whose type has no total order: the rule must not compare the members themselves
+    "incomparable-tuples": ([("add", x) for x in ((1, 'a'), ('a', 1), (1, None), (1, 2))], "snapshot"),
+    "complex": ([("add", x) for x in (2j, 1j, (3+1j))], [("add", x) for x in ((3+1j), 1j, 2j)]),
+    "frozensets": ([("add", frozenset(x)) for x in ([1, 2], [2, 3], [1])], [("add", frozenset(x)) for x in ([1], [2, 3], [1, 2])]),
 }
 
 CHILD = r"""
@@ -66,11 +70,17 @@ def scenario(repo, name):
         b._deserialize(pickle.loads(pickle.dumps(a._serialize(), -1)))
     else:
         b = build(B, other)
-    before_a, before_b = sorted(a.rawData()), sorted(b.rawData())
-    pa, pb = a.pop(_doApply=True), b.pop(_doApply=True)
-    after_a, after_b = sorted(a.rawData()), sorted(b.rawData())
-    obs = {"scenario": name, "contents_before": [before_a, before_b], "pop": [pa, pb],
-           "contents_after": [after_a, after_b]}
+    srt = lambda c: sorted(c, key=lambda x: (type(x).__name__, repr(x)))
+    before_a, before_b = srt(a.rawData()), srt(b.rawData())
+    try:
+        pa, pb = a.pop(_doApply=True), b.pop(_doApply=True)
+    except Exception as e:
+        return [{"signature": "batteries.ReplSet.pop:differs-from-builtin:%s" % type(e).__name__,
+                 "what": "scenario %s: pop() on the non-empty ReplSet %r raised %r (set.pop() returns a member)" % (name, before_a, e)}], \
+               {"scenario": name, "contents_before": [repr(before_a), repr(before_b)], "pop": "raised %r" % (e,)}
+    after_a, after_b = srt(a.rawData()), srt(b.rawData())
+    obs = {"scenario": name, "contents_before": [repr(before_a), repr(before_b)], "pop": [repr(pa), repr(pb)],
+           "contents_after": [repr(after_a), repr(after_b)]}
     viols = []
     if before_a != before_b:
         viols.append({"signature": "batteries.ReplSet:witness-setup-contents-differ",
